@@ -465,16 +465,15 @@ def process_unit(unit, seed, want_canary=True, prop=None):
     # become undecided) and verify the rest of the unit again, instead of leaving every property of the unit undecided
     cerr = [u for u in undecided if u.startswith('compile:') or u.startswith('unclassified:')]
     if cerr and len(cerr) == len(undecided):
+        # a syntax error inside one region makes rustc report follow-up errors elsewhere (unresolved names of the module that failed
+        # to parse): stub every CHANGED function region that an error points into and try again; whatever remains stays undecided
         bad = set()
-        ok = True
         for u in cerr:
             m = re.search(r'\(line (\d+)\)', u)
             rg = A.region_of_line(regions, int(m.group(1))) if m else None
-            if rg is None or rg.kind != 'fn' or not rg.changed:
-                ok = False
-                break
-            bad.add((rg.file, rg.key))
-        if ok and bad:
+            if rg is not None and rg.kind == 'fn' and rg.changed:
+                bad.add((rg.file, rg.key))
+        if bad:
             first_reasons = list(undecided)
             regions, text = A.assemble(cfg['fragments'], cfg['features'], path, stub_keys=bad)
             text += '\nfn main() {}\n'
